@@ -155,6 +155,14 @@ fn check(tape: &[u8], _ctx: &Ctx) -> Outcome {
     let mut t = Tape::new(tape);
     let mut spec = ResizeSpec::decode(&mut t, &profile());
     spec.use_alpha = true;
+    if t.chance(2) {
+        // large-image code paths (streaming stores, big scratch buffers)
+        spec.sw = 1031 + t.range(0, 30);
+        spec.sh = 1020 + t.range(0, 20);
+        spec.dw = 120 + t.range(0, 60);
+        spec.dh = 100 + t.range(0, 60);
+        spec.crop = crate::spec::CropSpec::None;
+    }
     if spec.is_copy() {
         // that call is a plain copy (C12's domain): make it resample
         spec.dw += 1;
